@@ -316,14 +316,14 @@ pub fn run(args: &Args, report: &mut Report) {
     let base = HRng::new(args.seed ^ 0xC06);
     // work list: (preset, num_tune or 0 meaning "draw a large one", large?)
     let mut items: Vec<(Preset, Option<u64>, u64)> = vec![];
-    let small_reps = report.size(24, 200);
+    let small_reps = report.size(24, 2000);
     for &preset in ALL_PRESETS.iter() {
         for nt in 0..=40u64 {
             for _ in 0..small_reps {
                 items.push((preset, Some(nt), 0));
             }
         }
-        for k in 0..report.size(160, 1600) {
+        for k in 0..report.size(160, 30_000) {
             items.push((preset, None, k));
         }
     }
